@@ -62,10 +62,37 @@ Theorem C01_move_to_empty_sound : forall srt w pi k tape p,
 Proof. exact choose_empty_sound. Qed.
 Print Assumptions C01_move_to_empty_sound.
 
+(* DiscreteSpace.select_random_empty_cell: both strategies return an empty cell of the space, for every outcome;
+   the cells are consulted in creation order (an ordered mapping), never in hash order *)
 Theorem C01_select_random_empty_sound : forall srt w k c,
-  snd (step srt w (SelectRandomEmpty k)) = [0; c] -> In c (map fst (w_cells w)) /\ cell_empty w c = true.
+  snd (step srt w (SelectRandomEmpty k)) = [w_sgen w; c] -> In c (map fst (w_cells w)) /\ cell_empty w c = true.
 Proof. exact select_random_empty_sound. Qed.
 Print Assumptions C01_select_random_empty_sound.
+
+Theorem C01_try_random_empty_sound : forall w tape c,
+  try_random w tape = Ok c -> In c (map fst (w_cells w)) /\ cell_empty w c = true.
+Proof. exact try_random_sound. Qed.
+Print Assumptions C01_try_random_empty_sound.
+
+(* select_random_cell / select_random_agent / choice: the result is the element at the drawn index of the
+   sequence in insertion order *)
+Theorem C01_choice_is_member : forall (l : list Z) k x, choice_from l k = Ok x -> In x l.
+Proof. exact (@choice_from_sound Z). Qed.
+Print Assumptions C01_choice_is_member.
+
+(* move_agent_to_one_of: the destination is one of the given positions; with selection="closest" no given
+   position is strictly nearer - for EVERY outcome of the shuffle and of the final choice *)
+Theorem C01_one_of_choice_sound : forall cur ps closest idxs k p,
+  one_of_choice cur ps closest idxs k = Ok p ->
+  In p ps /\ (closest = true -> forall q, In q ps -> dist2 p cur <= dist2 q cur).
+Proof. exact one_of_choice_sound. Qed.
+Print Assumptions C01_one_of_choice_sound.
+
+(* shuffle_do / random.shuffle on any list: a permutation, determined by the list order and the index outcome *)
+Theorem C01_shuffle_apply_is_permutation : forall (l : list Z) idxs l',
+  shuffle_apply l idxs = Ok l' -> Permutation l l'.
+Proof. exact (@shuffle_is_permutation Z). Qed.
+Print Assumptions C01_shuffle_apply_is_permutation.
 
 (* (c) a shuffle is a permutation of the members, keeps the generator, and its result depends on nothing but the
    member sequence and the generator's outcome (two different worlds / derivations with the same member sequence
@@ -127,6 +154,16 @@ Proof.
   split; [|vm_compute; split; reflexivity].
   exact (Permutation_cons_append [(0, 0); (1, 0)] (1, 1)).
 Qed.
+
+Example C01_example_choices :
+  let ops := [ShuffleDo (TByType 0) [1; 0]; RandomCell (CNbhd 0 false) 1; RandomAgent CAll 2; SelectRandomEmpty 1;
+              TryRandomEmpty [0; 2; 3]; MoveOneOf 2 [(1, 1); (0, 0); (1, 0)] true [2; 0; 1] 1;
+              MoveOneOf 2 [(1, 1)] false [] 0] in
+  run_wf true ex_world ops /\
+  run_ops true ex_world ops =
+    [[0; 4; 1]; [0; 2]; [0; 4]; [0; 3]; [0; 3]; [0; 0; 0; 0; 0; 2]; [0; 1; 1; 1; 1; 2]] /\
+  one_of_choice (0, 1) [(1, 1); (0, 0); (1, 0)] true [2; 0; 1] 1 = Ok (0, 0).
+Proof. vm_compute. repeat split; congruence. Qed.
 
 (* ---------------------------------------------------------------- T1 table: nothing in mesa/ (library and bundled
    examples) touches a process-global generator.  LAST in this file on purpose: when the scan finds a site this
